@@ -32,6 +32,7 @@ import AutomataVerif.Proofs.CtorNth
 import AutomataVerif.Proofs.CtorPrefix
 import AutomataVerif.Proofs.CtorKMPDfa
 import AutomataVerif.Proofs.CtorACDfa
+import AutomataVerif.Proofs.CtorFLDfa
 import AutomataVerif.Proofs.Minimal
 
 namespace AV.Props.C15
@@ -560,8 +561,9 @@ The models (`fromSubstrings`: trie with labels in insertion order, failure links
 absorbing end state unless suffix mode; `fromFiniteLanguage`: sorted insertion into a trie with
 a signature register and compression of the non-shared suffix of the previous word,
 `_to_complete` with trap `0`) are executable and tied to the code by the correspondence run.
-`from_substrings` is proved in general below; for `from_finite_language` the general theorem is
-stated in full (`…_full`) and what is proved at this stage is listed after it (`…_partial`). -/
+Their language theorems are proved in general below; for the minimality of
+`from_finite_language` the general theorem is stated in full (`…_minimal_full`) and what is
+proved at this stage is listed after it (`…_minimal_partial`). -/
 
 /-- The verdict of the DFA returned by a constructor call (`none` if the call raised). -/
 def verdict (r : Res (DFA σ α)) (w : List α) : Option Bool :=
@@ -628,32 +630,78 @@ theorem C15_from_substrings_regressions :
     verdict (fromSubstrings [0, 1] [[2, 2], [0, 1]] true false) [0] = some false ∧
     verdict (fromSubstrings [0, 1] [[2, 2], [0, 1]] true false) [0, 1] = some true := by decide
 
-/-- A strict total order on symbols, as a Boolean `<` (code points). -/
-structure StrictTotal (lt : α → α → Bool) : Prop where
-  irrefl : ∀ a, lt a a = false
-  trans : ∀ a b c, lt a b = true → lt b c = true → lt a c = true
-  total : ∀ a b, lt a b = true ∨ a = b ∨ lt b a = true
+/-- `from_finite_language(Σ, L, as_partial)` for every duplicate-free alphabet ordered by a strict
+total order (`sorted` compares code points), every duplicate-free list of words over it — with
+words that are prefixes of one another, shared suffixes, the empty word, the empty language —
+and both values of `as_partial`: the incremental construction (sorted insertion, signature
+register, compression of the non-shared suffix of the previous word, redirection through the
+back map) runs without `KeyError` and returns a valid DFA — partial (`allow_partial = True`, no
+trap) resp. complete (`_to_complete` with trap `0`) — accepting exactly the words of `L`.
+Behind it (`Proofs/CtorFL*.lean`): the closed form of `add_to_trie` (`flAddWord_effect`), the
+invariant "the table is a quotient of the trie of the words added so far; the prefixes of the
+current word up to position `k` are still trie nodes with their single parent in the back map,
+every other state is registered with its current signature and registered states only point to
+registered states" (`FLInv`), its preservation by `add_to_trie` given the contiguity of common
+prefixes in a sorted list (`add_inv`, `prefix_between`) and by one `compress` iteration in both
+branches (`compressAt_inv`), and the run of the final table along the trie (`runO_spec`). -/
+theorem C15_from_finite_language (lt : α → α → Bool) (ho : FL.StrictTotal lt) (syms : List α)
+    (hsyms : syms.Nodup) (lang : List (List α)) (hnd : lang.Nodup) (asPartial : Bool)
+    (hover : ∀ w ∈ lang, ∀ c ∈ w, c ∈ syms) :
+    Builds (fromFiniteLanguage lt syms lang asPartial) syms (fun w => w ∈ lang) ∧
+    ∀ d, fromFiniteLanguage lt syms lang asPartial = .ok d →
+      d.allowPartial = (asPartial && !lang.isEmpty) := by
+  by_cases hne : lang = []
+  · subst hne
+    have hr : fromFiniteLanguage lt syms [] asPartial = build (loopDFA FLName.zero syms false) := rfl
+    refine ⟨builds_of syms hr (loopDFA_wf _ syms false) rfl (fun w => by
+      rw [loopDFA_accepts]; simp), ?_⟩
+    intro d hd
+    rw [eq_of_build hr hd]; simp [loopDFA]
+  · obtain ⟨added, last, s, φ, hmem, hadd, inv, he⟩ :=
+      FL.fromFiniteLanguage_eq ho syms lang asPartial hne hnd
+    have hover' : ∀ w ∈ added, ∀ c ∈ w, c ∈ syms := fun w hw => hover w ((hmem w).mp hw)
+    have hemp : lang.isEmpty = false := by
+      cases lang with
+      | nil => exact absurd rfl hne
+      | cons a t => rfl
+    cases asPartial with
+    | true =>
+      simp only [if_true] at he
+      refine ⟨builds_of syms he (FL.flPartial_wf syms inv hadd hover') rfl (fun w => ?_), ?_⟩
+      · rw [FL.flPartial_accepts syms inv hadd hover' w, hmem]
+      · intro d hd
+        rw [eq_of_build he hd]; simp [FL.flPartialDFA, hemp]
+    | false =>
+      simp only [Bool.false_eq_true, if_false] at he
+      refine ⟨builds_of syms he (FL.flComplete_wf syms inv hadd hover' hsyms) rfl (fun w => ?_), ?_⟩
+      · rw [FL.flComplete_accepts syms inv hadd hover' hsyms w, hmem]
+      · intro d hd
+        rw [eq_of_build he hd]; simp [FL.flCompleteDFA]
 
-/-- **Full statement for `from_finite_language`.**  For every alphabet, every finite set of
-words over it, both values of `as_partial`: a valid DFA accepting exactly the words of the
-language; in partial form all states are reachable, live and pairwise distinguishable (no DFA
-at all is smaller), in complete form (over a non-empty alphabet) all states are reachable and
-pairwise distinguishable (no complete DFA is smaller). -/
-def C15_from_finite_language_full : Prop :=
-  ∀ (α : Type) [DecidableEq α] (lt : α → α → Bool), StrictTotal lt →
-    ∀ (syms : List α) (lang : List (List α)) (asPartial : Bool),
+example : Builds (fromFiniteLanguage (fun a b : Nat => decide (a < b)) [0, 1]
+    [[1, 0, 1], [0, 1], [1, 1], [], [0, 0, 1]] true) [0, 1]
+    (fun w => w ∈ [[1, 0, 1], [0, 1], [1, 1], [], [0, 0, 1]]) :=
+  (C15_from_finite_language _ FL.strictTotal_nat _ (by decide) _ (by decide) _ (by decide)).1
+
+/-- **Full statement of the minimality of `from_finite_language`** (the documentation promises
+the minimal DFA): in partial form all states are reachable, live and pairwise distinguishable
+(no DFA at all is smaller), in complete form (over a non-empty alphabet) all states are
+reachable and pairwise distinguishable (no complete DFA is smaller). -/
+def C15_from_finite_language_minimal_full : Prop :=
+  ∀ (α : Type) [DecidableEq α] (lt : α → α → Bool), FL.StrictTotal lt →
+    ∀ (syms : List α) (lang : List (List α)) (asPartial : Bool), syms.Nodup → lang.Nodup →
       (∀ w ∈ lang, ∀ c ∈ w, c ∈ syms) →
-      Builds (fromFiniteLanguage lt syms lang asPartial) syms (fun w => w ∈ lang) ∧
       ∀ d, fromFiniteLanguage lt syms lang asPartial = .ok d →
         (asPartial = true → lang ≠ [] → MinimalPartialShape d ∧ MinimalAmongAll d) ∧
         ((asPartial = false ∨ lang = []) → syms ≠ [] → MinimalShape d ∧ MinimalAmongComplete d)
 
-/-- Proved part of `C15_from_finite_language_full`: the empty language in general (the code
-returns `empty_language(Σ)` whatever `as_partial` is: valid, complete, minimal), and the
-statement on a concrete language with shared prefixes and shared suffixes (language decided on
-all words up to length 2 and the members, 4 states in partial and 5 in complete form — the
-Myhill–Nerode numbers).  The general proof (register invariant) is not done. -/
-theorem C15_from_finite_language_partial :
+/-- Proved part of `C15_from_finite_language_minimal_full`: the empty language in general (the
+code returns `empty_language(Σ)` whatever `as_partial` is: valid, complete, minimal), and a
+concrete language with shared prefixes and shared suffixes (4 states in partial and 5 in
+complete form — the Myhill–Nerode numbers; its language is also decided on the listed words).
+The general proof needs one more clause in the invariant (registered states are pairwise
+distinguishable) and is not done. -/
+theorem C15_from_finite_language_minimal_partial :
     (∀ (lt : α → α → Bool) (syms : List α) (asPartial : Bool),
       Builds (fromFiniteLanguage lt syms [] asPartial) syms (fun w => w ∈ ([] : List (List α))) ∧
       ∀ d, fromFiniteLanguage lt syms [] asPartial = .ok d →
